@@ -1,9 +1,9 @@
 #!/bin/bash
-# usage: bounded_c03.sh <repo> <evidence.json>
+# usage: bounded_c03.sh <repo> <evidence.json> [property-id, default C03; C02 relies on the same enumeration when a root is reopened from disk]
 # BOUNDED stand-in (labelled as such, never counted as proved) for the child enumeration of the node-database commit:
 # runs the real gatherChildren / cachedNode.childs on 336 small node shapes through `go test -overlay` (nothing is
 # written into the repository) and records the result in the evidence file.
-repo=${1:-/repo}; ev=$2
+repo=${1:-/repo}; ev=$2; pid=${3:-C03}
 export GOFLAGS=-mod=mod GOPROXY=off GOSUMDB=off GOTOOLCHAIN=local
 d=$(mktemp -d /tmp/vf-bounded-XXXXXX)
 cp /verif/bounded/c03_gatherchildren_test.go.txt $d/zz_verif_bounded_test.go
@@ -17,7 +17,7 @@ end=$(date +%s.%N)
 line=$(echo "$out" | grep -o 'VERIF-BOUNDED cases=[0-9]* failures=[0-9]*' | head -1)
 cases=$(echo "$line" | sed 's/.*cases=\([0-9]*\).*/\1/'); fails=$(echo "$line" | sed 's/.*failures=\([0-9]*\).*/\1/')
 status=held
-mkdir -p /verif/replays/C03
+mkdir -p /verif/replays/$pid
 if [ $rc -ne 0 ] || [ -z "$line" ] || [ "$fails" != 0 ]; then
   status=violated
   if [ -z "$line" ] && ! echo "$out" | grep -q -- '--- FAIL'; then status=undecided; fi
@@ -35,14 +35,14 @@ json.dump(d,open(ev,'w'),indent=1)
 PY
 fi
 if [ "$status" = violated ]; then
-  echo "$out" | tail -40 > /verif/replays/C03/bounded_gatherChildren.txt
-  echo "VIOLATION property=C03 replay=/verif/replays/C03/bounded_gatherChildren.txt obligation=bounded.gatherChildren clause=\"every hash node in a child slot of a collapsed branch node is collected (bounded check on the real code)\" result=failed cases=${cases:-?} failures=${fails:-?}"
+  echo "$out" | tail -40 > /verif/replays/$pid/bounded_gatherChildren.txt
+  echo "VIOLATION property=$pid replay=/verif/replays/$pid/bounded_gatherChildren.txt obligation=bounded.gatherChildren clause=\"every hash node in a child slot of a collapsed branch node is collected (bounded check on the real code)\" result=failed cases=${cases:-?} failures=${fails:-?}"
   rm -rf $d; exit 1
 fi
 if [ "$status" = undecided ]; then
-  echo "$out" | tail -20 > /verif/replays/C03/bounded_gatherChildren.txt
-  echo "UNDECIDED property=C03 reason=bounded check of gatherChildren did not run (see /verif/replays/C03/bounded_gatherChildren.txt)"
+  echo "$out" | tail -20 > /verif/replays/$pid/bounded_gatherChildren.txt
+  echo "UNDECIDED property=$pid reason=bounded check of gatherChildren did not run (see /verif/replays/$pid/bounded_gatherChildren.txt)"
   rm -rf $d; exit 2
 fi
-echo "BOUNDED property=C03 function=gatherChildren cases=$cases failures=0 (bounded check on the real code, not a proof)"
+echo "BOUNDED property=$pid function=gatherChildren cases=$cases failures=0 (bounded check on the real code, not a proof)"
 rm -rf $d; exit 0
